@@ -249,8 +249,15 @@ func genTrees(maxN int) [][]*node {
 // sampled: the levels a sampler counts (out-of-range levels pass through unsampled).
 func sampled(l int8) bool { return l >= lDebug && l <= lFatal }
 
-// drops: does this node decline every sampled entry in Check right now?
-func (r *rnode) drops() bool { return r.k == kDrop || (r.k == kOnce && r.spent) }
+// dropsAt: would this node decline an entry of level l in Check right now? A
+// dropping sampler declines every sampled level; a first-only sampler declines
+// once its budget of one entry for (level, the single message used) is spent.
+func (r *rnode) dropsAt(l int8) bool {
+	if !sampled(l) {
+		return false
+	}
+	return r.k == kDrop || (r.k == kOnce && r.seen[l-lDebug] >= 1)
+}
 
 // delivers: would some leaf under r record an entry of level l now? Differs
 // from accept only below a dropping sampler.
@@ -268,7 +275,7 @@ func delivers(r *rnode, l, cur int8) bool {
 	case kIncr:
 		return enabModel(r.e, l, cur) && delivers(r.kids[0], l, cur)
 	default:
-		if r.drops() && sampled(l) {
+		if r.dropsAt(l) {
 			return false
 		}
 		return delivers(r.kids[0], l, cur)
@@ -299,7 +306,9 @@ func accept(r *rnode, l, cur int8) bool {
 }
 
 // expect fills, for level l, which leaves must record the entry and how often
-// each hook must fire (slices must be zeroed by the caller). A leaf receives the
+// each hook must fire (slices must be zeroed by the caller). For trees with a
+// first-only sampler expect also advances the reference budget: call it exactly
+// once per real call that reaches Core.Check. A leaf receives the
 // entry iff every filter on its path enables l now; a tee serves each branch
 // independently; a hook fires once iff the entry reached it and its wrapped
 // subtree accepted.
@@ -331,7 +340,18 @@ func expect(r *rnode, l, cur int8, leaf []int, hook []int) bool {
 		}
 		return ok
 	default:
-		if r.drops() && sampled(l) {
+		if r.k == kOnce && sampled(l) {
+			// Only entries of a level the wrapped core enables at this moment
+			// are sampled (and use up budget); others are declined uncounted.
+			if !accept(r.kids[0], l, cur) {
+				return false
+			}
+			r.seen[l-lDebug]++
+			if r.seen[l-lDebug] > 1 {
+				return false
+			}
+		}
+		if r.k == kDrop && sampled(l) {
 			// the sampler declines in Check: nothing below it sees the entry
 			return false
 		}
@@ -388,7 +408,7 @@ func hookContext(r *rnode, idx int, l, cur int8, accBefore, gated bool) (bool, s
 	case kIncr:
 		return hookContext(r.kids[0], idx, l, cur, accBefore, gated || !enabModel(r.e, l, cur))
 	default:
-		return hookContext(r.kids[0], idx, l, cur, accBefore, gated || (r.drops() && sampled(l)))
+		return hookContext(r.kids[0], idx, l, cur, accBefore, gated || r.dropsAt(l))
 	}
 }
 
